@@ -8,6 +8,8 @@ package c12
 // repair turns the check red.
 
 import (
+	"crypto/sha256"
+	"encoding/asn1"
 	"fmt"
 	"math/big"
 	"runtime"
@@ -229,3 +231,55 @@ func TestHazardModel(t *testing.T) {
 		}
 	}
 }
+
+// altCurveSignedData builds a CMS SignedData whose (self-made, untrusted)
+// document-signer certificate carries a brainpoolP192r1 key and whose signer
+// info carries the ECDSA signature (r = n(brainpoolP192r1), s = 1): the shape
+// of an EF.SOD content that reaches cms.VerifySignature before any trust
+// decision (F17 end to end).
+func altCurveSignedData() []byte {
+	oidDER := func(o ...int) []byte { return mustDER(asn1OID(o)) }
+	name := tl(0x30, tl(0x31, tl(0x30, oidDER(2, 5, 4, 6), tl(0x13, []byte("DE")))))
+	ecdsaSHA256 := tl(0x30, oidDER(1, 2, 840, 10045, 4, 3, 2))
+	sha256Alg := tl(0x30, oidDER(2, 16, 840, 1, 101, 3, 4, 2, 1))
+	keyUsage := tl(0x30, oidDER(2, 5, 29, 15), []byte{0x01, 0x01, 0xFF}, tl(0x04, []byte{0x03, 0x02, 0x07, 0x80}))
+	tbs := tl(0x30, tl(0xA0, []byte{0x02, 0x01, 0x02}), []byte{0x02, 0x01, 0x05}, ecdsaSHA256, name,
+		tl(0x30, tl(0x17, []byte("200101000000Z")), tl(0x17, []byte("400101000000Z"))), name, bp192SPKI, tl(0xA3, tl(0x30, keyUsage)))
+	_, sig := reproAltCurve()
+	cert := tl(0x30, tbs, ecdsaSHA256, tl(0x03, []byte{0}, sig))
+	eContentType := oidDER(2, 23, 136, 1, 1, 1)
+	eContent := tl(0x30, []byte{0x02, 0x01, 0x00}, sha256Alg, tl(0x30, tl(0x30, []byte{0x02, 0x01, 0x01}, tl(0x04, make([]byte, 32)))))
+	h := sha256sum(eContent)
+	attrs := cat(tl(0x30, oidDER(1, 2, 840, 113549, 1, 9, 3), tl(0x31, eContentType)), tl(0x30, oidDER(1, 2, 840, 113549, 1, 9, 4), tl(0x31, tl(0x04, h))))
+	si := tl(0x30, []byte{0x02, 0x01, 0x01}, tl(0x30, name, []byte{0x02, 0x01, 0x05}), sha256Alg, tl(0xA0, attrs), ecdsaSHA256, tl(0x04, sig))
+	sd := tl(0x30, []byte{0x02, 0x01, 0x03}, tl(0x31, sha256Alg), tl(0x30, eContentType, tl(0xA0, tl(0x04, eContent))), tl(0xA0, cert), tl(0x31, si))
+	return tl(0x30, oidDER(1, 2, 840, 113549, 1, 7, 2), tl(0xA0, sd))
+}
+
+// TestKnownF17EndToEnd: the same defect through NewSOD + SignedData.Verify, i.e. the
+// calls passive authentication makes on an untrusted EF.SOD.
+func TestKnownF17EndToEnd(t *testing.T) {
+	if evid.Shard() != 0 {
+		return
+	}
+	sodBytes := tl(0x77, altCurveSignedData())
+	sod, err := document.NewSOD(sodBytes)
+	if err != nil || sod == nil {
+		evid.Infra(t, "harness-built EF.SOD with a brainpoolP192r1 signer does not parse: %v", err)
+	}
+	if isOpen(kfAltCurve) {
+		r := probe(func() { sod.SD.Verify(trustStore) })
+		if r.panicVal != nil {
+			evid.ReportKnown(prop, kfAltCurve, fmt.Sprintf("NewSOD(%d-byte EF.SOD with a brainpoolP192r1 signer certificate).SD.Verify(trust store) — panic: %v [%s]", len(sodBytes), r.panicVal, r.stack))
+		} else {
+			t.Logf("F17 end-to-end no longer reproduces")
+		}
+		return
+	}
+	// not open: the same input is a regression test
+	regress(t, caseDesc{Run: "signed-data", Data: altCurveSignedData()}, caseDesc{Run: "ctor", Sel: kSOD, Data: sodBytes})
+}
+
+func asn1OID(o []int) asn1.ObjectIdentifier { return asn1.ObjectIdentifier(o) }
+
+func sha256sum(b []byte) []byte { h := sha256.Sum256(b); return h[:] }
